@@ -145,7 +145,8 @@ func RunC11(run *vk.Run) {
 			combo Combo
 			long  bool
 			k     int
-			sov   int // serial override of the faulty rotation (0 = none): its object name then differs from the retries'
+			sov   int  // serial override of the faulty rotation (0 = none): its object name then differs from the retries'
+			kg    bool // the faulty rotation runs with --keep_going
 		}
 		var jobs []job
 		for _, combo := range combos {
@@ -181,11 +182,15 @@ func RunC11(run *vk.Run) {
 						continue // quick: every storage call, a third of the others
 					}
 					if sov == 0 {
-						jobs = append(jobs, job{combo, false, k, 0}, job{combo, true, k, 0})
+						jobs = append(jobs, job{combo, false, k, 0, false}, job{combo, true, k, 0, false})
+						if strings.HasPrefix(t.Calls[k-1], "Storage.") {
+							// a storage call refused while the command was told to keep going
+							jobs = append(jobs, job{combo, false, k, 0, true})
+						}
 					} else {
-						jobs = append(jobs, job{combo, true, k, sov})
+						jobs = append(jobs, job{combo, true, k, sov, false})
 						if !run.IsQuick() {
-							jobs = append(jobs, job{combo, false, k, sov})
+							jobs = append(jobs, job{combo, false, k, sov, false})
 						}
 					}
 				}
@@ -218,6 +223,9 @@ func RunC11(run *vk.Run) {
 			if j.sov != 0 {
 				fargs = append(fargs, "--rotated_key_serial_override", fmt.Sprint(j.sov))
 			}
+			if j.kg {
+				fargs = append(fargs, "--keep_going")
+			}
 			exec(ft, fargs...)
 			failed := "?"
 			if j.k <= len(ft.Calls) {
@@ -241,7 +249,7 @@ func RunC11(run *vk.Run) {
 				if op, _ := classifyObject(w.Object, w.Data); op == "WriteMan" {
 					for _, obj := range manifestObjects(w.Data) {
 						if !have[obj] {
-							run.Violation("manifest-ahead:fault", fmt.Sprintf("manifest written while it references %q, which is not stored (rotation with call %d [%s] failing, serial override %d, then healthy rotations; long-lived authority object: %v; %v)", obj, j.k, failed, j.sov, j.long, j.combo),
+							run.Violation("manifest-ahead:fault", fmt.Sprintf("manifest written while it references %q, which is not stored (rotation with call %d [%s] failing, serial override %d, keep_going %v, then healthy rotations; long-lived authority object: %v; %v)", obj, j.k, failed, j.sov, j.kg, j.long, j.combo),
 								map[string]any{"combo": j.combo.String(), "fail_at": j.k, "failed_call": failed, "long_lived": j.long, "commands": cmds})
 						}
 					}
@@ -249,15 +257,51 @@ func RunC11(run *vk.Run) {
 				have[w.Object] = true
 				objs[bucket+"/"+w.Object] = w.Data
 				if err := StoreConsistent(objs, Tn(3)); err != nil {
-					run.Violation("prefix-inconsistent:fault:"+classOf(w.Object), fmt.Sprintf("after the first %d committed object writes (last: %s) of a history whose first rotation had call %d [%s] failing (long-lived authority object: %v; %v) the store is inconsistent: %v", k+1, w.Object, j.k, failed, j.long, j.combo, err),
+					run.Violation("prefix-inconsistent:fault:"+classOf(w.Object), fmt.Sprintf("after the first %d committed object writes (last: %s) of a history whose first rotation had call %d [%s] failing (keep_going %v; long-lived authority object: %v; %v) the store is inconsistent: %v", k+1, w.Object, j.k, failed, j.kg, j.long, j.combo, err),
 						map[string]any{"combo": j.combo.String(), "fail_at": j.k, "failed_call": failed, "long_lived": j.long, "commands": cmds, "prefix": k + 1})
 				}
 				mu.Lock()
 				faultPrefixes++
 				mu.Unlock()
 			}
-			run.Case(fmt.Sprintf("fault:%v:%v:%d:%d", j.combo, j.long, j.k, j.sov), true)
+			run.Case(fmt.Sprintf("fault:%v:%v:%d:%d:%v", j.combo, j.long, j.k, j.sov, j.kg), true)
 		})
+	}
+	// a long history: the manifest grows by one entry per rotation; after every command the live
+	// store must still load through a fresh authority instance
+	{
+		n := 60
+		if !run.IsQuick() {
+			n = 120
+		}
+		a, err := NewAuthority(Combo{"memkm", "gcsca"})
+		if err != nil {
+			run.Infra(err)
+			return
+		}
+		if err := a.Exec(&Tap{}, "bootstrap", "--timestamp", ts(T0)); err != nil {
+			run.Infra(err)
+			return
+		}
+		longest := 0
+		for r := 1; r <= n; r++ {
+			if err := a.Exec(&Tap{}, "rotate", "--timestamp", ts(T0.Add(time.Duration(r)*time.Hour))); err != nil {
+				run.Violation("long-history-rotation-fails", fmt.Sprintf("fault-free rotation %d of a long history fails: %v", r, err), map[string]any{"rotation": r})
+				break
+			}
+			objs := a.Storage.Snapshot()
+			if m := len(objs[bucket+"/keyManifest.textproto"]); m > longest {
+				longest = m
+			}
+			if err := StoreConsistent(objs, T0.Add(time.Duration(r)*time.Hour)); err != nil {
+				run.Violation("store-unloadable:long-history", fmt.Sprintf("after %d fault-free rotations (manifest of %d bytes) the store no longer loads consistently through a fresh authority: %v", r, len(objs[bucket+"/keyManifest.textproto"]), err), map[string]any{"rotation": r})
+				break
+			}
+			run.Case(fmt.Sprintf("long:%d", r), true)
+		}
+		a.Close()
+		run.Extra["long_history_rotations"] = n
+		run.Extra["long_history_manifest_bytes"] = longest
 	}
 	run.Extra["fault_histories"] = faultHists
 	run.Extra["fault_history_prefixes_checked"] = faultPrefixes
@@ -281,7 +325,7 @@ func RunC11(run *vk.Run) {
 	}
 	for n, k := range rej {
 		if n < 3 {
-			fmt.Printf("DRIFT property=C11 trace rejected by Trace_KeyAuthority at event %d: %s\n", at[k], evString(hs[k].events))
+			fmt.Fprintf(vk.Stdout, "DRIFT property=C11 trace rejected by Trace_KeyAuthority at event %d: %s\n", at[k], evString(hs[k].events))
 		}
 	}
 	run.AddDrift(int64(len(rej)))
